@@ -30,7 +30,7 @@ RULE = (
 STATE_MEASURE = "(operation kind sequence, fault site) and heap shapes (who was copied from whom, cov/maneuver presence)"
 PROBES = [
     "fault_fired_natural", "fault_fired_injected", "atomic_failure_checked", "drag_cov_with_state",
-    "mutation_with_relatives", "pickle_across_nodes", "pickle_with_cov", "access_checked", "foreign_name_rejected", "still_usable_after_failure", "infos_checked",
+    "mutation_with_relatives", "pickle_across_nodes", "pickle_with_cov", "access_checked", "foreign_name_rejected", "still_usable_after_failure", "infos_checked", "form_call_checked",
 ]
 REAL_VS_STUB = "real: StateVector/Orbit/Cov/forms/frames/propagators, pickle; stub: none (the injected faults are raising wrappers around real callees in the node's private package copy); model: snapshots (bytes, labels, identities) of every heap object before each operation"
 ASSUMPTIONS = ["asynchronous exceptions (KeyboardInterrupt/MemoryError at an arbitrary bytecode) are not injected: the statement speaks of a form or frame change that fails", "mutating the inside of a Man object shared by a copy and its source is not exercised (list-level independence only)"]
@@ -71,7 +71,7 @@ def gen_plan(rng, tier, i):
         objs.append(spec)
     ops = []
     n = rng.randint(2, 6)
-    kinds = ["copy", "copy", "set_form", "set_form", "set_frame", "set_frame", "assign", "meta", "man", "cov_set", "cov_frame", "as_orbit", "as_sv", "pickle", "access", "access", "infos", "infos"]
+    kinds = ["copy", "copy", "set_form", "set_form", "set_frame", "set_frame", "assign", "meta", "man", "cov_set", "cov_frame", "as_orbit", "as_sv", "pickle", "access", "access", "infos", "infos", "form_call"]
     for _ in range(n):
         k = rng.choice(kinds)
         op = {"op": k, "obj": rng.randrange(8)}
@@ -82,6 +82,8 @@ def gen_plan(rng, tier, i):
                 op["same"] = rng.randrange(8)
         elif k == "set_form":
             op["form"] = rng.choice(FORMS + FORM_ALIASES)
+        elif k == "form_call":
+            op["form"] = rng.choice(FORMS + [None, None, None])  # None: the current form (identity conversion)
         elif k == "set_frame":
             op["frame"] = rng.choice(INERTIAL + ROTATING + ["Sta", "OrbF", "EphF", "WGS84"])
         elif k == "assign":
@@ -840,6 +842,30 @@ class Heap:
         self.ctx.checks += 1
         if snap(o) != before[j]:
             self.ctx.violate("pure-conversion", {"kind": "receiver_changed_by_infos"}, f"{where}: reading obj.infos modified the object")
+
+    def op_form_call(self, j, o, op, fail, before, where, _):
+        """form(orbit, new_form): 'gives the result of the transformation without in-place modifications' - also when the
+        target is the current form."""
+        ctx = self.ctx
+        self.receiver = j
+        target = op.get("form") or o.form.name
+        try:
+            res = o.form(o, target)
+        except Exception:  # noqa
+            return
+        ctx.checks += 1
+        ctx.probe("form_call_checked")
+        shares = np.shares_memory(np.asarray(res), np.asarray(o))
+        try:
+            res[0] = float(np.asarray(res)[0]) * 1.5 + 1.0  # the caller edits what it was given
+        except Exception:  # noqa
+            pass
+        if snap(o) != before[j] or shares:
+            ctx.violate(
+                "pure-conversion",
+                {"kind": "form_call_result_aliases_receiver", "identity": target == before[j]["form"]},
+                f"{where}: form(obj, {target!r}) returned {'the object itself / a view on it' if shares else 'something'} and editing the result changed the object it was computed from",
+            )
 
     def op_access(self, j, o, op, fail, before, where, _):
         self.receiver = j
